@@ -43,7 +43,9 @@ def build(s, copied):
     Fs = tp.spaces.FunctionSpace(tp.domains.Interval(tp.spaces.R1("s"), 0.0, 4.0), Fv)
     m = s["m"]
     disc = tp.samplers.DataSampler(Points(torch.arange(1, m + 1, dtype=torch.float64).reshape(m, 1), tp.spaces.R1("s")))
-    trunk = tp.models.FCTrunkNet(T, hidden=tuple(s["th"]), activations=Square(), trunk_input_copied=copied)
+    # several hidden layers: a LIST of different activations (the fast and the plain trunk must apply them alike)
+    acts = Square() if len(s["th"]) < 2 else [Square()] + [Ident()] * (len(s["th"]) - 1)
+    trunk = tp.models.FCTrunkNet(T, hidden=tuple(s["th"]), activations=acts, trunk_input_copied=copied)
     branch = tp.models.FCBranchNet(Fs, disc, hidden=tuple(s["bh"]), activations=Ident())
     model = tp.models.DeepONet(trunk, branch, U, output_neurons=s["neurons"]).double()
     return model, T, Fs, U
@@ -111,6 +113,21 @@ def run_one(s):
             ref = plain(x, fvals(cur, m)).as_tensor.detach()
             used = cur if torch.equal(o, ref) else -1
             tr["hist"].append({"fixed": cur, "used": used})
+        # (2b) the SAME tensor object as explicit branch input, evaluated without gradient tracking: after its content was
+        #      replaced in place, and after the weights were replaced, the output is that of the current content / weights
+        obj = fvals(1, m).clone()
+        steps = [(1, None), (2, None), (2, 300 + s["tid"]), (3, None)]
+        for fid, reseed in steps:
+            obj.copy_(fvals(fid, m))
+            if reseed is not None:
+                set_int_weights(fast, reseed)
+                plain.load_state_dict(fast.state_dict())
+            with torch.no_grad():
+                o = fast(x, obj).as_tensor.detach()
+                ref = plain(x, fvals(fid, m)).as_tensor.detach()
+            tr["hist"].append({"fixed": fid, "used": fid if torch.equal(o, ref) else -1})
+        set_int_weights(fast, 100 + s["tid"])
+        plain.load_state_dict(fast.state_dict())
         # (3) fast == plain: outputs, derivatives w.r.t. inputs, parameter gradients
         fids, lids = s["batches"][0][0], s["batches"][0][1]
         fb = torch.stack([fvals(f, m) for f in fids])
@@ -132,6 +149,13 @@ def run_one(s):
                     g2 = torch.autograd.grad(g[..., i].sum(), x.as_tensor, create_graph=True)[0]
                     lap = lap + g2[..., i]
                 res["lap"] = ints(lap.detach())
+                # parameter gradients of a loss that contains input derivatives (what a PDE residual does)
+                wd = torch.arange(1, g.numel() + 1, dtype=torch.float64).reshape(g.shape)
+                wl = torch.arange(2, lap.numel() + 2, dtype=torch.float64).reshape(lap.shape)
+                model.zero_grad()
+                ((g * wd).sum() + (lap * wl).sum()).backward(retain_graph=True)
+                res["pgrad_d"] = [ints(p.grad) if p.grad is not None else [] for _, p in sorted(model.named_parameters())]
+                model.zero_grad()
             w = torch.arange(1, out.numel() + 1, dtype=torch.float64).reshape(out.shape)
             (out * w).sum().backward()
             res["pgrad"] = [ints(p.grad) for _, p in sorted(model.named_parameters())]
